@@ -97,6 +97,16 @@ impl MinCostFlowSolver {
     }
 }
 
+#[cfg(feature = "verif")]
+impl MinCostFlowSolver {
+    /// Verification hook: the per-type maintenance-slot allotment the flow networks are built with.
+    pub fn verif_maintenance_allotment(
+        &self,
+    ) -> HashMap<VehicleTypeIdx, HashMap<NodeIdx, VehicleCount>> {
+        self.distribute_maintenance_slots()
+    }
+}
+
 impl MinCostFlowSolver {
     fn distribute_maintenance_slots(
         &self,
